@@ -374,6 +374,16 @@ def run(ctx):
 
     # ---- R8 resolve_unit never guesses: every Ok(..) is X.remove(0)/X[0] under `X.len() == 1`
     ctx.rule("C17.R8", "resolve_unit returns Ok only with the single element of a candidate list tested `len() == 1`; the exact-match list is consulted before the case-insensitive one", floor=2)
+    # case-insensitive matching folds every letter the table uses, not only ASCII ones (µ / Μ, ω / Ω)
+    non_ascii = sorted({x for r in R for x in r["ids"] if any(ord(ch) > 127 and ch.isalpha() for ch in x)})
+    ascii_only = []
+    for fname_, hf_ in sorted(core.hir.items()):
+        if not fname_.startswith("blots_core::units::") or hf_.get("body") is None or "::tests::" in fname_:
+            continue
+        for x in H.walk(hf_["body"]):
+            if H.kind(x) == "MethodCall" and x["name"] in ("eq_ignore_ascii_case", "to_ascii_lowercase", "to_ascii_uppercase", "make_ascii_lowercase", "make_ascii_uppercase"):
+                ascii_only.append("%s in %s (%s)" % (x["name"], H.last(fname_), H.loc(x)))
+    ctx.inst("C17.R8", "case-folding#covers-the-table", not (non_ascii and ascii_only), "identifiers with non-ASCII letters: %d (e.g. %s); ASCII-only case folding in the unit look-up: %s" % (len(non_ascii), non_ascii[:3], ascii_only or "none"), None)
     # a unit enters a candidate list at most once: a push per matching *identifier* (inside a loop over the unit's identifiers) counts a unit
     # with two spellings of one name (hz / Hz) twice and turns `HZ` into an ambiguity
     hru = core.hir_fn("blots_core::units::resolve_unit")
